@@ -362,7 +362,7 @@ func Check(r *ev.Run, replay string) {
 	bound, maxK, limit := 1, 8, 8000
 	mains := mainShapes()
 	if r.Thorough() {
-		bound, maxK, limit = 2, 24, 20000
+		bound, maxK, limit = 2, 14, 20000
 	}
 	children := childPrefixes(r.Thorough())
 	shards := 16
@@ -411,8 +411,8 @@ func Check(r *ev.Run, replay string) {
 						c := caseT{ch, mn, k, mode}
 						sc := c.scenario()
 						b := bound
-						if b > 1 && (mode != "" || k > 8) {
-							b = 1 // thorough: two deviations for the fresh-VM scenarios up to instant 8, one beyond and for the reused-VM modes
+						if b > 1 && (mode != "" || k > 8 || ci > 2) {
+							b = 1 // thorough: two deviations for the fresh-VM scenarios without children or with one looping child up to instant 8, one deviation elsewhere
 						}
 						if mode != "" && k > 12 {
 							continue
@@ -461,7 +461,7 @@ func Check(r *ev.Run, replay string) {
 func finish(r *ev.Run, bound, maxK int) {
 	r.Set("deviation_bound", bound)
 	r.Set("max_cancellation_instant", maxK)
-	r.Set("rule", fmt.Sprintf("child prefixes x main shapes x cancellation instants 0..%d (the canceller's gate opens when the main task has taken k scheduling points = VM instructions, or when the system is idle; for the main shapes that block, also the instant at which the main task has blocked, however many instructions that takes) x every schedule with at most %d deviations (delayed cancel, preempted watcher/child/main; thorough: 2 up to instant 8 and 1 beyond; the reused-VM modes - RunCode and Call on a VM that already ran with the same context - with at most 1 and up to instant 12); fairness 4 bounds spinning; horizon 60 decisions after the evaluation returned", maxK, bound))
+	r.Set("rule", fmt.Sprintf("child prefixes x main shapes x cancellation instants 0..%d (the canceller's gate opens when the main task has taken k scheduling points = VM instructions, or when the system is idle; for the main shapes that block, also the instant at which the main task has blocked, however many instructions that takes) x every schedule with at most %d deviations (delayed cancel, preempted watcher/child/main; thorough: 2 up to instant 8 for the scenarios without children or with one looping child, 1 elsewhere; the reused-VM modes - RunCode and Call on a VM that already ran with the same context - with at most 1 and up to instant 12); fairness 4 bounds spinning; horizon 60 decisions after the evaluation returned", maxK, bound))
 }
 
 func signature(ch, mn shape, v string) string {
